@@ -70,7 +70,7 @@ func usesRegistered(vs []*CV) bool {
 		if v == nil {
 			continue
 		}
-		if v.K == "other" && v.Tag >= 6 {
+		if v.K == "other" && (v.Tag == 6 || v.Tag == 7 || v.Tag == 9) {
 			return true
 		}
 		if v.K == "map" {
